@@ -135,12 +135,14 @@ def readLabel (bits : Bits) (n : Nat) : Option (Bits × Bits) :=
     | _ => none
   | true :: false :: rest =>               -- hml_long
     let w := bitLength n
+    if w == 0 then none else               -- `load_uint(0)` raises
     if rest.length < w then none else
     let len := natOfBits (rest.take w)
     let r1 := rest.drop w
     if r1.length < len then none else some (r1.take len, r1.drop len)
   | true :: true :: v :: rest =>           -- hml_same
     let w := bitLength n
+    if w == 0 then none else
     if rest.length < w then none else
     let len := natOfBits (rest.take w)
     some (List.replicate len v, rest.drop w)
